@@ -330,8 +330,8 @@ ImportOf(J, P, kind, F, cb) ==
      \* tarfile.extractall(filter="data") refuses members outside the extraction directory (Python >= 3.12);
      \* archives check that the identified jobs are unique before anything is copied
      IF (kind = "tar" /\ Esc # {}) \/ (kind # "dir" /\ DupJob)
-     THEN [ident |-> imp, imp |-> none, exact |-> none, stray |-> FALSE, raises |-> TRUE, outside |-> FALSE]
-     ELSE [ident |-> imp, imp |-> imp, exact |-> exact,
+     THEN [ident |-> imp, imp |-> none, exact |-> none, stray |-> FALSE, raises |-> TRUE, outside |-> FALSE, nids |-> 0]
+     ELSE [ident |-> imp, imp |-> imp, exact |-> exact, nids |-> Cardinality(Ids),      \* nids: directories identified as jobs
            stray |-> Stray # {} \/ Alien, raises |-> FALSE, outside |-> kind = "dir" /\ Esc # {}]
 
 Outcome(J, pr, pskind, kind, F, cb) ==
@@ -341,10 +341,10 @@ Outcome(J, pr, pskind, kind, F, cb) ==
       \* a directory export that stops after k jobs has already written the escaping ones among them
       escd == kind = "dir" /\ \E i \in 1..ex.ncopied : Escapes(NormComps(ex.P[i]))
   IN IF ex.res # "ok"
-     THEN [exp |-> ex.res, ncopied |-> ex.ncopied, ident |-> none, imp |-> none, exact |-> none, stray |-> FALSE, impraise |-> FALSE,
+     THEN [exp |-> ex.res, ncopied |-> ex.ncopied, ident |-> none, imp |-> none, exact |-> none, stray |-> FALSE, impraise |-> FALSE, nids |-> 0,
            outside |-> ex.res = "dirty" /\ escd, rt |-> ex.res = "clean"]
      ELSE LET im == ImportOf(J, ex.P, kind, F, cb) IN
-          [exp |-> "ok", ncopied |-> n, ident |-> im.ident, imp |-> im.imp, exact |-> im.exact, stray |-> im.stray, impraise |-> im.raises,
+          [exp |-> "ok", ncopied |-> n, nids |-> im.nids, ident |-> im.ident, imp |-> im.imp, exact |-> im.exact, stray |-> im.stray, impraise |-> im.raises,
            outside |-> im.outside,
            \* RoundTripOK, or the import raised before copying; writing outside the target is never acceptable
            rt |-> ~im.outside /\ (im.raises \/ ((\A i \in 1..n : im.imp[i] /\ im.exact[i]) /\ ~im.stray))]
